@@ -1,6 +1,7 @@
 (* C09 — marching cubes yields a closed, outward-oriented surface on the isosurface.
    Statements only; proofs live in March/TableProps.v (finite facts about the GENERATED table
-   PFGen.MarchTable, by vm_compute), March/GridProofs.v, March/SurfaceProofs.v.
+   PFGen.MarchTable, by vm_compute), March/GridProofs.v, March/SurfaceProofs.v, March/VolumeProofs.v (enclosed
+   volume), March/IsoProofs.v (distance from the true isosurface), March/Canvas*.v, March/Weld*.v.
 
    Vocabulary (March/Grid.v): a lattice point is pt = Z*Z*Z; a grid edge (p, axis) joins p and
    p + axis_vec axis and names the output vertex lying on it; a triangle is three grid edges;
@@ -12,6 +13,9 @@ From PFGen Require Import MarchTable.
 From PF Require Import March.Grid March.TableProps March.GridProofs March.SurfaceProofs.
 From PF Require Import March.VertexProofs March.Closed March.ClosedProofs March.Blocks March.BlocksProofs.
 From PF Require Import March.Canvas March.CanvasProofs March.Weld March.WeldProofs.
+From PF Require Import March.VolumeProofs March.IsoProofs.
+From PF Require Geom.Vec Geom.SdfSpec.
+From Coq Require Import Qabs Reals.
 Import ListNotations.
 Open Scope Z_scope.
 
@@ -97,9 +101,81 @@ Theorem vertex_on_edge : forall (f : pt -> Q) (cutoff : Q) lo hi t g,
   (0 <= interp va vb cutoff <= 1)%Q /\ (0 <= interp vb va cutoff <= 1)%Q.
 Proof. exact vertex_on_edge_thm. Qed.
 Print Assumptions vertex_on_edge.
-(* iso_distance_partial -- NOT proved: the step from "sign change between two neighbouring samples" to "the
-   true isosurface of an analytic field passes within one cell" needs continuity of the field (intermediate
-   value theorem); the harness checks the sampled statement on the implementation's own field values. *)
+
+(* "Every vertex within one grid cell of the true isosurface" (March/IsoProofs.v; was iso_distance_partial).
+   The step from the samples to the field between them needs a hypothesis on the field; the one the signed-distance
+   constructors satisfy is a Lipschitz bound (C19 proves lipschitz1 of sdf.Sphere / Box / Line / ...; marching.Sphere
+   etc. multiply by `strength`, which multiplies the bound).
+
+   Over Q, no axioms.  fe g is the field along grid edge g (parameter 0 at the lower lattice point, 1 at the upper
+   one); if it changes by at most K per unit of the parameter (K = Lipschitz constant * cell size) then at EVERY
+   point of a grid edge that carries a vertex -- the interpolated position, the clamped one of the repaired weld --
+   the field differs from the cutoff by at most K.  For a signed distance function (K = one cell) |field - cutoff| is
+   the distance to the isosurface.  This is also the harness oracle "|reference - cutoff| <= strength * one cell". *)
+Theorem iso_value_within_cell :
+  forall (f : pt -> Q) (fe : gedge -> Q -> Q) (K cutoff : Q) (lo hi : pt),
+  (forall g, fe g 0 == f (ge_lo g) /\ fe g 1 == f (ge_hi g))%Q ->
+  (forall g t u, 0 <= t <= 1 -> 0 <= u <= 1 -> Qabs (fe g t - fe g u) <= K * Qabs (t - u))%Q ->
+  forall t g, In t (surface (sign_grid f cutoff) lo hi) -> In g (tri_verts t) ->
+  forall x, (0 <= x <= 1)%Q -> (Qabs (fe g x - cutoff) <= K)%Q.
+Proof. exact iso_value_within_cell_thm. Qed.
+Print Assumptions iso_value_within_cell.
+
+(* Over R, with C19's vocabulary (Geom/SdfSpec.v: points of R^3, Euclidean dist, lipschitz1 F := |F p - F q| <= dist p q).
+   F is sampled at the lattice points rpos h p = h * p (h = 1 / cubesPerUnit), s is its sign grid.  Then the grid edge
+   of every vertex contains a point of the TRUE isosurface F = cutoff (intermediate value theorem; continuity follows
+   from the Lipschitz bound), no farther than one cell from the vertex wherever on the edge the vertex sits, and
+   |F(vertex) - cutoff| <= one cell.  Print Assumptions shows the axioms of Coq's classical real numbers (allowed). *)
+Theorem iso_distance :
+  forall (F : SdfSpec.pt -> R) (h cutoff : R) (s : pt -> bool) (lo hi : pt),
+  (0 < h)%R -> SdfSpec.lipschitz1 F ->
+  (forall p, s p = true <-> (F (rpos h p) < cutoff)%R) ->
+  forall t g, In t (surface s lo hi) -> In g (tri_verts t) ->
+  forall x, (0 <= x <= 1)%R ->
+  exists x0, (0 <= x0 <= 1)%R /\ F (edge_point h g x0) = cutoff /\
+             (SdfSpec.dist (edge_point h g x) (edge_point h g x0) <= h)%R /\
+             (Rabs (F (edge_point h g x) - cutoff) <= h)%R.
+Proof. exact iso_distance_thm. Qed.
+Print Assumptions iso_distance.
+(* non-vacuity of the two Lipschitz hypotheses: the plane field x - 1/2 *)
+Example iso_hypotheses_inhabited :
+  (forall t u, 0 <= t <= 1 -> 0 <= u <= 1 -> Qabs ((t - (1 # 2)) - (u - (1 # 2))) <= 1 * Qabs (t - u))%Q /\
+  SdfSpec.lipschitz1 (fun p => (Vec.v3x p - / 2)%R).
+Proof. split; [exact lip_linear|exact plane_field_lipschitz]. Qed.
+
+(* "Oriented outward so that the enclosed volume is positive" (March/VolumeProofs.v).  Vertices at the midpoints of
+   their grid edges, coordinates doubled: vol6 ts = sum over the triangles of det(a, b, c) = 48 x the signed volume
+   enclosed.  wcase i is a function of the GENERATED table alone: 48 x the volume of the below-cutoff part of a cell
+   of case i -- between 0 and 48, positive for every case but 0, 48 for case 255 (finite check over the 256 cases,
+   together with: the area vector of every case is the difference of ONE function of the corner signs of its low and
+   of its high face, i.e. both cells sharing a face agree on its below-cutoff part).
+   For EVERY sign grid whose below-cutoff points lie strictly inside the box: the volume of the surface is the sum of
+   the below-cutoff volumes of the cells ... *)
+Theorem surface_volume_decomposition : forall (s : pt -> bool) (lo hi : pt),
+  (forall p, s p = true -> strictly_inside lo hi p) ->
+  vol6 (surface s lo hi) = zsuml (map (fun c => wcase (case_index s c)) (cells lo hi)) /\
+  (forall i, 0 <= i < 256 -> 0 <= wcase i <= 48 /\ (i <> 0 -> 0 < wcase i) /\ (i = 255 -> wcase i = 48)).
+Proof. intros s lo hi H. split; [exact (volume_decomposition s lo hi H)|exact wcase_facts]. Qed.
+Print Assumptions surface_volume_decomposition.
+
+(* ... hence positive as soon as one sample is below the cutoff (the triangles face outward: with the opposite
+   orientation the same sum would be negative) ... *)
+Theorem surface_volume_positive : forall (s : pt -> bool) (lo hi : pt),
+  (forall p, s p = true -> strictly_inside lo hi p) -> (exists p, s p = true) -> 0 < vol6 (surface s lo hi).
+Proof. exact volume_positive. Qed.
+Print Assumptions surface_volume_positive.
+
+(* ... and between the number of cells with eight and with at least one below-cutoff corner (the bracket the
+   harness applies to the float volume of the real output). *)
+Theorem surface_volume_bracket : forall (s : pt -> bool) (lo hi : pt),
+  (forall p, s p = true -> strictly_inside lo hi p) ->
+  zsuml (map (full_cell s) (cells lo hi)) <= vol6 (surface s lo hi) <= zsuml (map (touched_cell s) (cells lo hi)).
+Proof. exact volume_bracket. Qed.
+Print Assumptions surface_volume_bracket.
+(* volume_interpolated_partial -- NOT proved: positivity of the volume with every vertex at its interpolated position
+   t in [1/1000, 999/1000] instead of the midpoint.  (The volume is affine in each t separately, so it would follow
+   from the per-cell identities at the corner values of the t's; not done.)  The harness evaluates the float volume
+   of the real output and brackets it as above. *)
 
 (* Storage blocks.  A lattice coordinate (negative ones included) splits uniquely into block = floor(x/100)
    and local index in 0..99 ... *)
@@ -220,5 +296,6 @@ Example one_point_octahedron :
   let s := fun p => pt_eqb p (0, 0, 0) in
   length (surface s (-1, -1, -1) (1, 1, 1)) = 8%nat /\
   closedb (surface s (-1, -1, -1) (1, 1, 1)) = true /\
-  no_degenerateb (surface s (-1, -1, -1) (1, 1, 1)) = true.
+  no_degenerateb (surface s (-1, -1, -1) (1, 1, 1)) = true /\
+  vol6 (surface s (-1, -1, -1) (1, 1, 1)) = 8.   (* 48 x the volume 1/6 of the octahedron with radius 1/2 *)
 Proof. vm_compute. repeat split. Qed.
